@@ -2,20 +2,29 @@
    a compiler builtin, the Spec.v function: the builtin is not library code); spec leg =
    extracted Spec.v.  Values are IEEE bit patterns, the single NaN prints as the quiet NaN. *)
 type fmtrec = { p : z; e : z; rd : toks -> binary_float; pr : binary_float -> string;
-                na : binary_float -> binary_float -> binary_float; sb : binary_float -> bool }
+                na : binary_float -> binary_float -> binary_float; sb : binary_float -> bool;
+                w : z; rdraw : toks -> z; prraw : z -> string }
 
 let no_na _ _ = raise Not_found
 let no_sb _ = raise Not_found
 let f32 = { p = z_of_int 24; e = z_of_int 128; rd = (fun t -> dec32 (next_z t)); pr = (fun v -> str_of_z (enc32 v));
-            na = nextafter32; sb = signbit_fb32 }
+            na = nextafter32; sb = signbit_fb32; w = z_of_int 32; rdraw = next_z; prraw = str_of_z }
 let f64 = { p = z_of_int 53; e = z_of_int 1024; rd = (fun t -> dec64 (next_z t)); pr = (fun v -> str_of_z (enc64 v));
-            na = nextafter64; sb = signbit_fb64 }
+            na = nextafter64; sb = signbit_fb64; w = z_of_int 64; rdraw = next_z; prraw = str_of_z }
 (* x87 extended: three tokens "sign significand biased-exponent" *)
 let z0 = z_of_int 0
 let f80 = { p = z_of_int 64; e = z_of_int 16384;
             rd = (fun t -> let s = next_z t in let m = next_z t in let ex = next_z t in dec80 (s <> z0) m ex);
             pr = (fun v -> let (s, (m, ex)) = enc80 v in join [ b2s s; str_of_z m; str_of_z ex ]);
-            na = no_na; sb = no_sb }
+            na = no_na; sb = no_sb; w = z_of_int 80;
+            (* raw x87 pattern: sign * 2^79 + biased exponent * 2^64 + significand *)
+            rdraw = (fun t -> let s = next_big t in let m = next_big t in let ex = next_big t in
+                       z_of_big (Big.add (Big.shift_left s 79) (Big.add (Big.shift_left ex 64) m)));
+            prraw = (fun v -> let b = big_of_z v in
+                       join [ Big.to_string (Big.shift_right b 79);
+                              Big.to_string (Big.logand b (Big.pred (Big.shift_left Big.one 64)));
+                              Big.to_string (Big.logand (Big.shift_right b 64) (Big.of_int 32767)) ]) }
+let okraw f v = join [ "ok"; f.prraw v ]
 
 let okf f v = join [ "ok"; f.pr v ]
 let okb b = join [ "ok"; b2s b ]
@@ -34,6 +43,30 @@ let run_fmt f fn t =
   let b2 m s = let x = f.rd t in let y = f.rd t in (m x y, s x y) in
   let is80 = (f == f80) in
   match fn with
+  (* --- sign-bit operations on the raw encoding (NaN sign and payload included): abs_impl,
+         copysign_fallback (long double; constant evaluation) / the builtin (= specification), signbit *)
+  | "rawfabs" | "rawabs" | "rawfabsl" ->
+      let b = f.rdraw t in (okraw f (raw_e_abs f.w b), okraw f (spec_raw_fabs f.w b))
+  | "rawcopysign_fb" ->
+      let x = f.rdraw t in let y = f.rdraw t in
+      (okraw f (raw_e_copysign_fb f.w x y), okraw f (spec_raw_copysign f.w x y))
+  | "rawcopysign" | "rawcopysignl" ->
+      let x = f.rdraw t in let y = f.rdraw t in
+      (okraw f (if is80 then raw_e_copysign_fb f.w x y else spec_raw_copysign f.w x y), okraw f (spec_raw_copysign f.w x y))
+  | "rawsignbit" -> let b = f.rdraw t in (okb (raw_signbit f.w b), okb (spec_raw_signbit f.w b))
+  | "rawsignbit_fb" ->
+      (* long double: __builtin_copysignl(1.0L, arg) < 0.0L, i.e. the sign bit *)
+      let b = f.rdraw t in (okb (if is80 then raw_signbit f.w b else raw_e_signbit_fb f.w b), okb (spec_raw_signbit f.w b))
+  (* --- rint / lrint / llrint in the four rounding directions (run-time path = builtin = specification) *)
+  | "rm_rint" ->
+      let md = next_z t in let x = f.rd t in
+      (* binary32 / binary64: the sign of a zero result is not compared (compiler's inline expansion, see harness.cpp) *)
+      let pz v = if is80 then v else (match v with B754_zero _ -> B754_zero false | _ -> v) in
+      (okf f (pz (spec_rint_rm p e md x)), okf f (pz (spec_rint_rm p e md x)))
+  | "rm_lrint" | "rm_llrint" ->
+      let md = next_z t in let x = f.rd t in
+      ((match spec_lrint_rm p e w64 md x with Some z -> okz z | None -> okz int_min64),
+       (match spec_lrint_rm p e w64 md x with Some z -> okz z | None -> "na"))
   (* --- long double: the public functions run the gcem kernels also at run time *)
   | "floor" when is80 -> u1 (fun x -> resf f (g_floor p e x)) (fun x -> okf f (spec_floor p e x))
   | "ceil" when is80 -> u1 (fun x -> resf f (g_ceil p e x)) (fun x -> okf f (spec_ceil p e x))
@@ -111,8 +144,25 @@ let run_case op t =
   if n < 3 then raise Not_found;
   let fn = String.sub op 0 (n - 2) and fm = String.sub op (n - 2) 2 in
   let f = match fm with "32" -> f32 | "64" -> f64 | "80" -> f80 | _ -> raise Not_found in
+  (* C-style suffixed overloads (floorf32, fminl80, ...) forward to the same code as the unsuffixed ones *)
+  let fn =
+    let k = String.length fn in
+    if k < 2 then fn else begin
+      let base = String.sub fn 0 (k - 1) in
+      let raw = String.length base > 3 && String.sub base 0 3 = "raw" in
+      if ((fn.[k - 1] = 'f' && fm = "32") || (fn.[k - 1] = 'l' && fm = "80")) && not raw
+         && List.mem base [ "floor"; "ceil"; "trunc"; "round"; "rint"; "fabs"; "lrint"; "llrint"; "fmod"; "remainder";
+                            "copysign"; "fmin"; "fmax"; "fdim"; "nextafter"; "rm_rint"; "rm_lrint"; "rm_llrint" ]
+      then base else fn
+    end in
   match fn with
   | "sweep" -> ("ok 0 -", "ok 0 -")
+  | _ when String.length fn > 2 && (String.sub fn 0 2 = "i_" || String.sub fn 0 2 = "u_") && fm = "64" ->
+      (* integral overloads: the argument is converted to double (round to nearest even), then the double overload *)
+      let n = next_z t in
+      let x = of_Z f.p f.e n in
+      let t' = toks_of_line (str_of_z (enc64 x)) in
+      run_fmt f (String.sub fn 2 (String.length fn - 2)) t'
   | _ -> run_fmt f fn t
 
 (* The extracted Flocq code computes on unary-binary positives and is slow; a large batch is
